@@ -20,6 +20,7 @@ from .c03_hostile import apply_faults, _biased_byte, shape_hash
 
 ID = "C15"
 LEVEL = "fault_enumeration"
+SELFTEST_N = 64
 BATCH = 2
 DOUBLE_EVERY = 41
 TASK_LIMIT_S = 1200
